@@ -10,6 +10,7 @@ import (
 	"strings"
 
 	"github.com/tableauio/tableau/format"
+	"github.com/tableauio/tableau/xerrors"
 )
 
 // ---------------------------------------------------------------------------
@@ -32,7 +33,9 @@ func c11Rows(s string) [][]string {
 	return rows
 }
 
-func implC11Spec(a []string) string {
+// c11Setup writes the books of a specifier case; `spoil` (optional) = target ("main" or "p<i>/<Sheet>"), data row
+// index and the text to put into the ID cell of that row
+func c11Setup(w *workspace, a []string, spoil ...string) runOpts {
 	kind, container := a[0], a[1]
 	ext := map[string]string{"c": ".csv", "x": ".xlsx"}[container]
 	var specs []string
@@ -58,8 +61,15 @@ func implC11Spec(a []string) string {
 			}
 		}
 	}
-	w := newWorkspace()
-	defer w.cleanup()
+	spoilRows := func(target string, rows [][]string) [][]string {
+		if len(spoil) == 3 && spoil[0] == target {
+			k := 3 + int(mustInt(spoil[1]))
+			if k < len(rows) {
+				rows[k] = append([]string{spoil[2]}, rows[k][1:]...)
+			}
+		}
+		return rows
+	}
 	write := func(b bookSpec) {
 		if container == "x" {
 			w.writeXLSXBook("", b, false)
@@ -76,13 +86,13 @@ func implC11Spec(a []string) string {
 			meta["ScatterWithoutBookName"] = "true"
 		}
 	}
-	write(bookSpec{Name: "Main", Sheets: []sheetSpec{{Name: "Conf", Rows: c11Rows(a[3]), Meta: meta}}})
+	write(bookSpec{Name: "Main", Sheets: []sheetSpec{{Name: "Conf", Rows: spoilRows("main", c11Rows(a[3])), Meta: meta}}})
 	if a[4] != "" {
 		for i, b := range strings.Split(a[4], ";") {
 			bk := bookSpec{Name: "Part" + strconv.Itoa(i+1), NoMeta: true}
 			for _, sh := range strings.Split(b, "&") {
 				f := strings.SplitN(sh, "=", 2)
-				bk.Sheets = append(bk.Sheets, sheetSpec{Name: f[0], Rows: c11Rows(f[1])})
+				bk.Sheets = append(bk.Sheets, sheetSpec{Name: f[0], Rows: spoilRows("p"+strconv.Itoa(i+1)+"/"+f[0], c11Rows(f[1]))})
 			}
 			write(bk)
 		}
@@ -91,6 +101,13 @@ func implC11Spec(a []string) string {
 	if container == "x" {
 		ro.Formats = []format.Format{format.Excel}
 	}
+	return ro
+}
+
+func implC11Spec(a []string) string {
+	w := newWorkspace()
+	defer w.cleanup()
+	ro := c11Setup(w, a)
 	if err := w.genProto(ro); err != nil {
 		return "protoerr " + errCode(err)
 	}
@@ -181,4 +198,85 @@ func init() {
 		}
 	})
 	regImpl("c11.spec", implC11Spec)
+
+	// e2e.C07.book: the same workspaces with ONE spoilt ID cell in the primary or in a merged / scattered book:
+	// the error must name that workbook (not the primary), the sheet, the A1 position and the content, in en and zh
+	regStream("e2e.C07.book", func(r *rand.Rand, n int, emit func(string, ...string)) {
+		gen := streams["e2e.C11.specifiers"].gen
+		gen(r, n, func(fn string, args ...string) {
+			// candidates: the primary sheet and every specified (book, sheet) pair with at least one data row
+			type cand struct {
+				target string
+				nrows  int
+			}
+			count := func(rows string) int {
+				if rows == "" {
+					return 0
+				}
+				return len(strings.Split(rows, "."))
+			}
+			var cands []cand
+			if c := count(args[3]); c > 0 {
+				cands = append(cands, cand{"main", c})
+			}
+			books := []string{}
+			if args[4] != "" {
+				books = strings.Split(args[4], ";")
+			}
+			sheetRows := func(b int, sheet string) int {
+				for _, sh := range strings.Split(books[b], "&") {
+					f := strings.SplitN(sh, "=", 2)
+					if f[0] == sheet {
+						return count(f[1])
+					}
+				}
+				return 0
+			}
+			for _, sp := range strings.Split(args[2], ",") {
+				switch {
+				case sp == "g":
+					for b := range books {
+						if c := sheetRows(b, "Conf"); c > 0 {
+							cands = append(cands, cand{"p" + strconv.Itoa(b+1) + "/Conf", c})
+						}
+					}
+				case sp[0] == 'b':
+					b := int(mustInt(sp[1:])) - 1
+					if c := sheetRows(b, "Conf"); c > 0 {
+						cands = append(cands, cand{"p" + sp[1:] + "/Conf", c})
+					}
+				case sp[0] == 's':
+					f := strings.SplitN(sp[1:], "/", 2)
+					b := int(mustInt(f[0])) - 1
+					if c := sheetRows(b, f[1]); c > 0 {
+						cands = append(cands, cand{"p" + f[0] + "/" + f[1], c})
+					}
+				}
+			}
+			if len(cands) == 0 {
+				return
+			}
+			c := cands[r.Intn(len(cands))]
+			emit("c07.book", append(append([]string{}, args...), c.target, strconv.Itoa(r.Intn(c.nrows)), []string{"en", "zh"}[r.Intn(2)])...)
+		})
+	})
+	regImpl("c07.book", func(a []string) string {
+		w := newWorkspace()
+		defer w.cleanup()
+		ro := c11Setup(w, a[:5], a[5], a[6], "abc")
+		ro.Lang = a[7]
+		if err := w.genProto(ro); err != nil {
+			return "protoerr " + errCode(err)
+		}
+		err := w.genConf(ro)
+		if err == nil {
+			return "accepted"
+		}
+		d := xerrors.NewDesc(err)
+		get := func(k string) string {
+			v, _ := d.GetValue(k).(string)
+			return v
+		}
+		return "err " + d.ErrCode() + "|" + bookKey(get(xerrors.KeyBookName)) + "|" + get(xerrors.KeySheetName) + "|" + get(xerrors.KeyDataCellPos) + "|" + get(xerrors.KeyDataCell)
+	})
 }
